@@ -1,15 +1,14 @@
 SPECIFICATION Spec
 CONSTANTS
   Msgs = {"a", "b", "c"}
-  TL = 2
+  TL = 1
   ML = 2
   MaxRetries = 1
   Repaired = TRUE
   Prefetch = 2
-  FinishMode = "taken"
+  FinishMode = "local"
 INVARIANT Conservation
 INVARIANT RunningBound
 INVARIANT StartedBound
-INVARIANT AtReturn
 INVARIANT TriedBound
 CONSTRAINT Bounded
